@@ -111,7 +111,8 @@ def gen_strings(tier, rnd):
 
 # ------------------------------------------------------------------ C20
 
-PATHS = ['/dev/x', '/dev/mdt0', 'a"b', 'c\\d', 'é ~', 'p q', '(x)', ';#|', "it's", 'x' * 300, '\t', '"', '\\', '~a']
+PATHS = ['/dev/x', '/dev/mdt0', 'a"b', 'c\\d', 'é ~', 'p q', '(x)', ';#|', "it's", 'x' * 300, '\t', '"', '\\', '~a',
+         '/mnt/\x1b[1mmdt', '\x7f', 'a\u200bb', '\ufeff', '\x01', 'x\x85y', '\U0001f600', '\u0378', '\x00', 'a\nb', '\r', '\u2028', '\x9f']
 
 
 def rand_compilable_text(rnd):
